@@ -387,6 +387,10 @@ C34_SHAPES = [
     ("list-repeated", 2, "list[File]", lambda s: {"x": [s[0], s[1], s[0]]}),
     ("dict", 2, "dict[str, File]", lambda s: {"x": {"a": s[0], "b": s[1]}}),
     ("tuple-mixed", 1, "tuple[File, int]", lambda s: {"x": (s[0], 3)}),
+    # the file is NOT the first member of a fixed-length heterogeneous tuple (seeded change C34-2: a staging decision that
+    # looks at the first type argument only)
+    ("tuple-file-last", 1, "tuple[str, File]", lambda s: {"x": ("label", s[0])}),
+    ("list-of-tuples-file-last", 2, "list[tuple[int, File]]", lambda s: {"x": [(1, s[0]), (2, s[1])]}),
     ("list-of-lists", 2, "list[list[File]]", lambda s: {"x": [[s[0]], [s[1], s[0]]]}),
     ("dict-of-list", 2, "dict[str, list[File]]", lambda s: {"x": {"k": [s[0], s[1]], "e": []}}),
     ("two-fields", 2, "File;File", lambda s: {"x": s[0], "y": s[1]}),
